@@ -46,27 +46,30 @@ Section Session.
                                           <| s_ops := update id (fun o => o <| op_pid := None |> <| op_packet := p' |>) (s_ops s) |>
                              | _ => s end
                | None => s end).
-    assert (H1 : WFSx X s1 /\ but_oa s1 = but_oa s /\ s_ppub s1 = [] /\ s_pnon s1 = [] /\
-                 exists f, s_ops s1 = update id f (s_ops s) /\ op_pid (f o) = None /\ op_pubrel (f o) = op_pubrel o /\
-                           op_ss (f o) = op_ss o).
+    assert (H1 : WFSx X s1 /\ but_oa s1 = but_oa s /\ keys (s_ops s1) = keys (s_ops s) /\
+                 sumss (s_ops s1) = sumss (s_ops s) /\ (forall i, i <> id -> getop s1 i = getop s i) /\
+                 exists o1, getop s1 id = Some o1 /\ op_pid o1 = None /\ op_pubrel o1 = op_pubrel o /\ op_ss o1 = op_ss o).
     { unfold s1. destruct (op_pid o) as [pid|] eqn:Hp.
       - destruct (w_bound _ _ HW _ _ _ Hid Hp) as (_ & _ & Hn). destruct (with_pid_needs 0 _ Hn) as (p' & Hwp). rewrite Hwp.
-        splits; auto.
+        splits.
         + eapply WFc_unbind_pid; [exact HW|exact Hid|exact Hp|exact Hwp|exact Epp|exact Epn|reflexivity].
-        + eexists. split; [reflexivity|]. cbn. tauto.
-      - splits; auto. exists (fun o => o). split; [|tauto]. symmetry. clear -Hid.
-        induction (s_ops s) as [|[k v] r IH]; cbn [update lookup] in *; [reflexivity|].
-        destruct (k =? id); [reflexivity|]. f_equal. apply IH. exact Hid. }
-    clearbody s1. destruct H1 as (HW1 & B1 & Epp1 & Epn1 & f & Ef & F1 & F2 & F3).
-    assert (Hid1 : getop s1 id = Some (f o)) by (unfold getop; rewrite Ef; apply lookup_update_eq; exact Hid).
+        + reflexivity.
+        + cbn. apply keys_update.
+        + cbn. apply sumss_update. intros o1. reflexivity.
+        + intros i Hne. unfold getop. cbn. apply lookup_update_neq. exact Hne.
+        + eexists. split; [unfold getop; cbn; apply lookup_update_eq; exact Hid|]. cbn. tauto.
+      - splits; auto. exists o. tauto. }
+    clearbody s1. destruct H1 as (HW1 & B1 & K1 & S1 & O1 & o1 & Ho1 & P1 & P2 & P3).
     cbv zeta. splits.
-    - eapply WFc_update; [exact HW1| |reflexivity]. intros o1 _. apply upd_ok_clear_pubrel.
+    - eapply WFc_update; [exact HW1| |reflexivity]. intros o2 _. apply upd_ok_clear_pubrel.
     - unfold but_oa in *. cbn. exact B1.
-    - cbn. rewrite keys_update, Ef, keys_update. reflexivity.
-    - cbn. rewrite sumss_update by reflexivity. rewrite Ef. apply sumss_update. intros o1.
-      (* f preserves op_ss on every operation it is applied to: only o matters *)
-      admit.
-    - admit.
-    - admit.
-  Abort.
+    - cbn. rewrite keys_update. exact K1.
+    - cbn. rewrite sumss_update by reflexivity. exact S1.
+    - intros i o' Hi. unfold getop in Hi. cbn in Hi. apply lookup_update_inv in Hi.
+      destruct Hi as (o2 & Ho2 & [[Hne ->]|[-> ->]]).
+      + exists o2. split; [rewrite <- (O1 i Hne); exact Ho2|]. unfold unb_rel. splits; auto. intros; congruence.
+      + assert (o2 = o1) by (unfold getop in Ho1; congruence). subst o2. exists o. split; [exact Hid|].
+        unfold unb_rel. cbn. splits; auto; try congruence. intros _. split; [exact P1|reflexivity].
+    - intros i Hi. unfold getop in *. cbn. apply lookup_none_not_in. rewrite keys_update, K1. apply lookup_none_not_in. exact Hi.
+  Qed.
 End Session.
